@@ -58,3 +58,9 @@ CORPUS += [
     M("assert-on-peer-length", L, "            packet = packet[:length]\n", "            packet = packet[:length]\n            assert len(packet) > 56\n"),
     M("n-assert-implied-length", L, "            packet = packet[:length]\n", "            packet = packet[:length]\n            assert len(packet) == length\n", "S"),
 ]
+# round 7: the signature covers its whole argument (C03.a); nothing reaches the caller around the decoder (C03.e)
+CORPUS += [
+    M("sign-skips-last-byte", L, "        return md5(data + Security.SIGN_KEY).digest()", "        return md5(data[:-1] + Security.SIGN_KEY).digest()"),
+    M("read-bypasses-decode-for-short", L, "        # Decode packet to frame\n        response = _Packet.decode(packet)", "        # Decode packet to frame\n        response = _Packet.decode(packet) if len(packet) > 56 else bytes()"),
+    M("n-sign-through-helper", L, "        return md5(data + Security.SIGN_KEY).digest()", "        keyed = data + Security.SIGN_KEY\n        return md5(keyed).digest()", "S"),
+]
